@@ -11,10 +11,16 @@ EXTRACT = os.path.join(BIN, "extract")
 # (binary, generated Lean file, its namespace, json summary); order matters: TransCron.lean imports Trans.lean
 TRANSLATORS = [("gotolean", "Trans.lean", "Generated.Trans", "trans.json"),
                ("gotolean-cron", "TransCron.lean", "Generated.TransCron", "trans_cron.json"),
+               # the TEXT level of the cron parser (quartz/cron.go, util.go); imports TransCron.lean
+               ("gotolean-parse", "TransParse.lean", "Generated.TransParse", "trans_parse.json"),
                # quartz/queue.go, job_key.go, matcher/*.go AND the toolchain's container/heap/heap.go
                ("gotolean-queue", "TransQueue.lean", "Generated.TransQueue", "trans_queue.json"),
                # quartz/scheduler.go: validateJob, fetchAndReschedule, the seven registry methods; quartz/trigger.go
-               ("gotolean-sched", "TransSched.lean", "Generated.TransSched", "trans_sched.json")]
+               ("gotolean-sched", "TransSched.lean", "Generated.TransSched", "trans_sched.json"),
+               # quartz/scheduler.go: one iteration of startExecutionLoop, calculateNextTick, executeAndReschedule, Reset; imports TransSched.lean
+               ("gotolean-loop", "TransLoop.lean", "Generated.TransLoop", "trans_loop.json"),
+               # quartz/scheduler.go: executeWithRetries, the dispatch switch, startWorkers
+               ("gotolean-retry", "TransRetry.lean", "Generated.TransRetry", "trans_retry.json")]
 QMODEL = os.path.join(LEAN, ".lake", "build", "bin", "qmodel")
 GOENV = dict(os.environ, GOFLAGS="-mod=mod", GOPROXY="off", GOSUMDB="off", GOTOOLCHAIN="local",
              CGO_ENABLED=os.environ.get("CGO_ENABLED", "0"))
